@@ -215,6 +215,38 @@ FilteredClauses(c, begin, evs, stats) ==
            ELSE IF anyDiffReported THEN {"C11.filteredTransferFailed/explainedByIncrementalMatcher"}
            ELSE {"C11.filteredTransferFailed"})
 
+\* ---- C19: metadata-only transfers ---------------------------------------------
+ListingName == << <<46, 102, 115, 117, 116, 105, 108, 45, 109, 101, 116, 97, 100, 97, 116, 97>> >>   \* ".fsutil-metadata"
+\* the entries the destination must hold: the selected ones plus the ancestors they need
+\* (the listing file's own name is never transferred)
+Projection(view, selected) ==
+  LET keep == {i \in DOMAIN view : /\ view[i].p # ListingName
+                                   /\ (view[i].p \in selected \/ \E q \in selected : q # ListingName /\ Under(q, view[i].p))}
+      RECURSIVE Asc(_)
+      Asc(S) == IF S = {} THEN <<>> ELSE LET m == CHOOSE x \in S : \A y \in S : x <= y IN <<view[m]>> \o Asc(S \ {m})
+  IN Asc(keep)
+WithoutListing(t) == SelectSeq(t, LAMBDA x : x.p # ListingName)
+\* snapshot group labels are positions: dropping the listing entry shifts them
+Relabel(t) == LET idxOf(g) == IF g = 0 THEN 0 ELSE Cardinality({k \in 1..g : t[k].p # ListingName})
+              IN [i \in DOMAIN WithoutListing(t) |-> [WithoutListing(t)[i] EXCEPT !.g = idxOf(@)]]
+MetaClauses(c, begin, e, stats, view) ==
+  LET selected == {begin.selected[k] : k \in DOMAIN begin.selected}
+      want == [i \in DOMAIN stats |-> stats[i].sh]
+      listed == SelectSeq(want, LAMBDA x : TRUE)
+      wantSh == LET S == SelectSeq(stats, LAMBDA x : x.p # ListingName) IN [i \in DOMAIN S |-> S[i].sh]
+      proj == Projection(view, selected)
+      before == TLCEval(Relabel(begin.before))
+      after == TLCEval(Relabel(e.after))
+      reqs == ReqPaths(c, stats)
+      ok == c.retS = "ok" /\ c.retR = "ok"
+  IN IF ~ok THEN Cl(c.faults = 0, "C19.metadataOnlyTransferFailed")
+     ELSE Cl(~e.listing.present \/ ~e.listing.framingOK, "C19.listingFraming")
+          \cup Cl(e.listing.recs # wantSh, "C19.listingRecordsEqualAnnouncedStats")
+          \cup Pfx("C19", ConvergedClauses(proj, after, before))
+          \cup Cl(~(reqs \subseteq {p \in selected : Has(view, p) /\ At(view, p).t = "file" /\ At(view, p).hl = <<>>}),
+                  "C19.contentRequestedForUnselectedEntry")
+          \cup Cl(~ReqOK(reqs, proj, before, c.differ, FALSE), "C19.contentRequestSet")
+
 \* ---- C03: hostile sender ---------------------------------------------------
 \* index of the first STAT that a receiver must reject: not a clean relative path strictly
 \* inside the root, not strictly ascending, parent not a directory sent earlier, or a hard
@@ -281,6 +313,7 @@ EndClauses(c, e) ==
         THEN (IF "filtered" \in DOMAIN begin THEN {} ELSE {"C11.faultFreeTransferFailed"}) \cup {"C08.outcomeDependsOnSchedule"} ELSE {})
   \cup (IF "hostile" \in DOMAIN begin /\ c.realR THEN HostileClauses(c, begin, e, stats) ELSE {})
   \cup (IF "filtered" \in DOMAIN begin THEN FilteredClauses(c, begin, evs, stats) ELSE {})
+  \cup (IF c.metaOnly /\ c.realR THEN MetaClauses(c, begin, e, stats, view) ELSE {})
   \cup Cl(c.retS = "none" \/ c.retR = "none", "C04.callDidNotReturn")
 
 EndDetail(c, e) ==
